@@ -21,6 +21,7 @@ import bisect
 import copy
 import json
 import sys
+import time
 
 from . import common
 from . import txhist as TX
@@ -157,13 +158,13 @@ def gen_big(rng, n):
         s = BASE + i * 10 * U
         end_a = s + a_dur(i)
         r = rng.random()
-        if r < 0.62:
+        if r < 0.78:
             t, d = s + rng.choice([0, 1, 2]) * U, rng.choice([0, 1, 2, 3]) * U                   # inside: dropped
-        elif r < 0.74:
+        elif r < 0.86:
             t, d = end_a - rng.choice([0, 1, 2]) * U, rng.choice([1, 2, 3]) * U                    # across the end
-        elif r < 0.84:
+        elif r < 0.92:
             t, d = s + 8 * U, rng.choice([1, 2, 3, 4]) * U                                        # gap / across the next start
-        elif r < 0.9:
+        elif r < 0.95:
             t, d = s + 9 * U, 0
         else:
             t, d = s + rng.choice([1, 6, 9]) * U, rng.choice([10, 17, 25]) * U                   # spans one or two list-one events
@@ -202,6 +203,7 @@ class Runner:
         self.ql = TX.QueryLayer()
         self.labels = TX.FastLabels()
         self.pending = []
+        self.minimised = False
         self.routes = {r: Route(uno, self.ql, r) for r in TX.ROUTES}
 
     def verdict(self, case, route, live=None, fast=False):
@@ -230,7 +232,11 @@ class Runner:
             ck.count("session:out-of-domain(correspondence only)")
         if bad:
             d = rep()
-            if shrink and not ck.violations:
+            if live is None and not bad.startswith("inputs-not-modified") and \
+                    (self.verdict(case, route, None, fast)[1] or "").split(":")[0] != bad.split(":")[0]:
+                bad += TX.HISTORY_NOTE
+            elif shrink and (not ck.violations or (live is not None and not self.minimised)):
+                self.minimised = self.minimised or live is not None
                 bad, d = shrink(bad, d)
             d["route"] = route
             ck.failing_input("C15:" + bad.split(":")[0], f"[{case['stream']}/{route}] " + bad, d)
@@ -263,9 +269,11 @@ def live_case(S, stream):
 
 
 def run(ck, c15, Event, uno, have_driver):
+    t0 = time.time()
     rng = ck.rng
     quick = ck.tier == "quick"
     R = Runner(ck, c15, Event, uno, have_driver)
+    TX.make_room(ck)
 
     # -- q2
     n_q2 = 500 if quick else 20_000
@@ -302,7 +310,8 @@ def run(ck, c15, Event, uno, have_driver):
                 break
 
     # -- big
-    bigs = [("direct", True), ("registry", False)] if quick else [("direct", True), ("registry", True), ("program", False), ("direct", False)]
+    # quick: one pair, through the registered function (which calls the anchored one), with the model
+    bigs = [("registry", True)] if quick else [("direct", True), ("registry", True), ("program", False), ("direct", False)]
     for route, with_model in bigs:
         n = TX.BIG_N + rng.randrange(0, 300) if quick else rng.choice([TX.BIG_N, 15_013])
         case = gen_big(rng, n)
@@ -331,11 +340,13 @@ def run(ck, c15, Event, uno, have_driver):
             return m, d2
         R.call(case, route, fast=True, model=with_model, replay=lambda case=case, route=route: big_replay(case, route), shrink=shrink)
     R.compare_with_model()
+    TX.prefer_session_failure(ck)
     ck.coverage["round3"] = {
         "q2": f"{n_q2} random sorted non-overlapping pairs through functions['union_no_overlap'] and a query2 statement",
         "session": f"{n_sessions} call sequences on live objects (same / ==-equal with other ids and look-alike data / edited in between / "
                    "vandalised results), routes mixed; statement read with typed equality",
-        "big": [f"{r}: two lists of >= {TX.BIG_N} events" + (" (+ model)" if m else " (oracle only)") for r, m in bigs]}
+        "big": [f"{r}: two lists of >= {TX.BIG_N} events" + (" (+ model)" if m else " (oracle only)") for r, m in bigs],
+        "wall_s": round(time.time() - t0, 1)}
 
 
 def big_replay(case, route):
